@@ -238,7 +238,7 @@ Apply(c, p) ==
     [] c.m = "AllowElementsMatching" -> AllowElementsMatching(p, c.pat)
     [] c.m = "AllowURLSchemes" -> AllowURLSchemes(p, c.schemes)
     [] c.m = "AllowURLSchemeWithCustomPolicy" -> AllowURLSchemeWithCustomPolicy(p, c.scheme, c.fid)
-    [] c.m = "AllowURLSchemesMatching" -> [p EXCEPT !.schemePats = @ \cup {c.pat}]
+    [] c.m = "AllowURLSchemesMatching" -> [InitP(p) EXCEPT !.schemePats = @ \cup {c.pat}]
     [] c.m = "RewriteSrc" -> [p EXCEPT !.rewriter = c.fid]
     [] c.m = "RequireNoFollowOnLinks" -> [p EXCEPT !.nofollow = c.b, !.parseable = TRUE]
     [] c.m = "RequireNoFollowOnFullyQualifiedLinks" -> [p EXCEPT !.nofollowFQ = c.b, !.parseable = TRUE]
